@@ -60,7 +60,26 @@ class P(ServeProp):
         if gs.SECRET in body:
             path = tgt.split("?")[0].split("#")[0]
             comps = [c for c in path.split("/") if c not in ("", ".")]
-            links = [e[1][len("outer/root/"):] for e in pc["ents"] if e[0] == "L" and e[1].startswith("outer/root/")]
+            # only a link that the owner pointed outside the served directory excuses outside bytes: a link whose target, read from the link's
+            # own directory, stays inside the root does not (it may chain to another link that leaves, which is followed a few levels)
+            all_links = {e[1][len("outer/root/"):]: (e[2].decode("utf-8", "replace") if isinstance(e[2], bytes) else e[2]) for e in pc["ents"] if e[0] == "L" and e[1].startswith("outer/root/")}
+            def leaves(lp, depth=0):
+                tg = all_links[lp]
+                if tg.startswith("/") or depth > 5:
+                    return True
+                cur = lp.split("/")[:-1]
+                for seg in tg.split("/"):
+                    if seg in ("", "."): continue
+                    if seg == "..":
+                        if not cur: return True
+                        cur.pop()
+                    else:
+                        cur.append(seg)
+                    here = "/".join(cur)
+                    if here in all_links and leaves(here, depth + 1):
+                        return True
+                return False
+            links = [l for l in all_links if leaves(l)]
             # the path itself, the directory index of the path, and the path with .html appended are the candidates the server tries:
             # each may be (or lie under) a link the owner placed
             cands = [comps, comps + ["index.html"], (comps[:-1] + [comps[-1] + ".html"]) if comps else comps]
